@@ -70,6 +70,9 @@ namespace foonathan
 
             iteration_allocator& operator=(iteration_allocator&& other) noexcept
             {
+                // give back the block this object still owns before taking over the other one
+                if (cur_ < N)
+                    get_allocator().deallocate_block(block_);
                 allocator_type::operator=(detail::move(other));
                 block_ = other.block_;
                 cur_   = other.cur_;
